@@ -34,43 +34,68 @@ def hcAfter (cur : Option CommitQC) : Just → Option CommitQC
     | some hq => newer cur hq
     | none => cur
 
+theorem processCommitQC_fst (r : Replica) (e : Env) (q : CommitQC) :
+    (processCommitQC r e q).1 = { r with highCommitQC := newer r.highCommitQC q } := by
+  cases hr : r.highCommitQC with
+  | none =>
+    rw [processCommitQC_eq_new r e q (by intro cur hc; rw [hr] at hc; cases hc)]
+    simp [newer]
+  | some c =>
+    by_cases h : c.message.view.number < q.message.view.number
+    · rw [processCommitQC_eq_new r e q (by intro cur hc; rw [hr] at hc; cases hc; exact h)]
+      simp [newer, h]
+    · rw [processCommitQC_eq_old r e q c hr (by omega)]
+      simp only [newer, h, if_false]
+      rw [← hr]
+
 theorem processCommitQC_hc (r : Replica) (e : Env) (q : CommitQC) :
     (processCommitQC r e q).1.highCommitQC = newer r.highCommitQC q := by
-  unfold processCommitQC newer
-  cases hr : r.highCommitQC with
-  | none => simp
-  | some c =>
-    by_cases h : c.message.view.number < q.message.view.number <;> simp [h, hr]
+  rw [processCommitQC_fst]
 
 theorem processCommitQC_ht (r : Replica) (e : Env) (q : CommitQC) :
     (processCommitQC r e q).1.highTimeoutQC = r.highTimeoutQC := by
-  unfold processCommitQC
-  simp only []
+  rw [processCommitQC_fst]
+
+/-- the part of `process_timeout_qc` after the reported high certificate was processed -/
+def ptTail (t : TimeoutQC) (p : Replica × List Effect × Bool) : Replica × List Effect × Bool :=
+  if !p.2.2 then (p.1, p.2.1, false) else
+  ((if (match p.1.highTimeoutQC with | none => true | some old => decide (old.view.number < t.view.number))
+    then { p.1 with highTimeoutQC := some t } else p.1), p.2.1, true)
+
+theorem processTimeoutQC_eq (r : Replica) (e : Env) (t : TimeoutQC) :
+    processTimeoutQC r e t =
+      ptTail t (match t.highQC with | some hq => processCommitQC r e hq | none => (r, [], true)) := rfl
+
+theorem ptTail_hc (t : TimeoutQC) (p : Replica × List Effect × Bool) :
+    (ptTail t p).1.highCommitQC = p.1.highCommitQC := by
+  unfold ptTail
+  generalize (match p.1.highTimeoutQC with | none => true | some old => decide (old.view.number < t.view.number)) = b
+  cases p.2.2 <;> cases b <;> rfl
+
+theorem ptTail_ht (t : TimeoutQC) (p : Replica × List Effect × Bool) :
+    (ptTail t p).1.highTimeoutQC = p.1.highTimeoutQC ∨ (ptTail t p).1.highTimeoutQC = some t := by
+  unfold ptTail
+  generalize (match p.1.highTimeoutQC with | none => true | some old => decide (old.view.number < t.view.number)) = b
+  cases p.2.2 <;> cases b
+  · exact Or.inl rfl
+  · exact Or.inl rfl
+  · exact Or.inl rfl
+  · exact Or.inr rfl
+
+theorem ptTail_effs (t : TimeoutQC) (p : Replica × List Effect × Bool) : (ptTail t p).2.1 = p.2.1 := by
+  unfold ptTail
   split <;> rfl
 
-theorem processCommitQC_rest (r : Replica) (e : Env) (q : CommitQC) :
-    (processCommitQC r e q).1 = { r with highCommitQC := (processCommitQC r e q).1.highCommitQC } := by
-  unfold processCommitQC
-  simp only []
-  split <;> rfl
+/-- `hcAfter` on a timeout justification -/
+theorem hcAfter_timeout (cur : Option CommitQC) (t : TimeoutQC) :
+    hcAfter cur (.timeout t) = match t.highQC with | some hq => newer cur hq | none => cur := rfl
 
 theorem processTimeoutQC_hc (r : Replica) (e : Env) (t : TimeoutQC) :
     (processTimeoutQC r e t).1.highCommitQC = hcAfter r.highCommitQC (.timeout t) := by
-  unfold processTimeoutQC hcAfter
-  cases hq : t.highQC with
-  | none =>
-    simp only [Bool.not_true, Bool.false_eq_true, if_false]
-    split <;> rfl
-  | some hq' =>
-    simp only []
-    rw [← processCommitQC_hc r e hq']
-    generalize processCommitQC r e hq' = p
-    obtain ⟨r1, effs, ok⟩ := p
-    cases ok with
-    | false => simp
-    | true =>
-      simp only [Bool.not_true, Bool.false_eq_true, if_false]
-      split <;> rfl
+  rw [processTimeoutQC_eq, ptTail_hc, hcAfter_timeout]
+  cases t.highQC with
+  | none => rfl
+  | some hq => exact processCommitQC_hc r e hq
 
 theorem processJust_hc (r : Replica) (e : Env) (j : Just) :
     (processJust r e j).1.highCommitQC = hcAfter r.highCommitQC j := by
@@ -82,26 +107,14 @@ theorem processJust_hc (r : Replica) (e : Env) (j : Just) :
 theorem processTimeoutQC_ht (r : Replica) (e : Env) (t : TimeoutQC) :
     (processTimeoutQC r e t).1.highTimeoutQC = r.highTimeoutQC ∨
       (processTimeoutQC r e t).1.highTimeoutQC = some t := by
-  unfold processTimeoutQC
-  cases hq : t.highQC with
-  | none =>
-    simp only [Bool.not_true, Bool.false_eq_true, if_false]
-    split
-    · exact Or.inr rfl
-    · exact Or.inl rfl
-  | some hq' =>
-    simp only []
-    have h1 := processCommitQC_ht r e hq'
-    generalize processCommitQC r e hq' = p at h1
-    obtain ⟨r1, effs, ok⟩ := p
-    simp only at h1
-    cases ok with
-    | false => simp [h1]
-    | true =>
-      simp only [Bool.not_true, Bool.false_eq_true, if_false]
-      split
-      · exact Or.inr rfl
-      · exact Or.inl h1
+  rw [processTimeoutQC_eq]
+  have : (match t.highQC with | some hq => processCommitQC r e hq | none => (r, [], true)).1.highTimeoutQC =
+      r.highTimeoutQC := by
+    cases t.highQC with
+    | none => rfl
+    | some hq => exact processCommitQC_ht r e hq
+  rw [← this]
+  exact ptTail_ht t _
 
 /-- the live certificate `b` is `a` or a certificate of a strictly higher view -/
 def QLe (a b : Option CommitQC) : Prop :=
@@ -131,7 +144,7 @@ theorem qle_hcAfter (cur : Option CommitQC) (j : Just) : QLe cur (hcAfter cur j)
   cases j with
   | commit q => exact qle_newer cur q
   | timeout t =>
-    unfold hcAfter
+    rw [hcAfter_timeout]
     cases t.highQC with
     | none => exact QLe.rfl' _
     | some hq => exact qle_newer cur hq
@@ -161,7 +174,8 @@ theorem hcAfter_cases (cur : Option CommitQC) (j : Just) :
     · exact Or.inl h
     · exact Or.inr ⟨q, rfl, h⟩
   | timeout t =>
-    unfold hcAfter justQC
+    rw [hcAfter_timeout]
+    show _ ∨ ∃ q, t.highQC = some q ∧ _
     cases ht : t.highQC with
     | none => exact Or.inl rfl
     | some hq =>
@@ -213,34 +227,31 @@ theorem saveBlock_queue (r : Replica) (e : Env) (q : CommitQC) {n p : Nat} {q' :
 theorem processCommitQC_queue (r : Replica) (e : Env) (q : CommitQC) {n p : Nat} {q' : CommitQC}
     (h : Effect.queueBlock n p q' ∈ (processCommitQC r e q).2.1) :
     q' = q ∧ n = q.message.proposal.number ∧ p = q.message.proposal.payload := by
-  unfold processCommitQC at h
-  simp only [] at h
-  split at h
-  · exact saveBlock_queue _ e q h
-  · simp at h
+  by_cases hn : ∀ cur, r.highCommitQC = some cur → cur.message.view.number < q.message.view.number
+  · rw [processCommitQC_eq_new r e q hn] at h
+    exact saveBlock_queue _ e q h
+  · have : ∃ cur, r.highCommitQC = some cur ∧ q.message.view.number ≤ cur.message.view.number := by
+      apply Classical.byContradiction
+      intro hne
+      apply hn
+      intro cur hcur
+      apply Classical.byContradiction
+      intro hlt
+      exact hne ⟨cur, hcur, by omega⟩
+    obtain ⟨cur, hcur, hle⟩ := this
+    rw [processCommitQC_eq_old r e q cur hcur hle] at h
+    simp at h
 
 theorem processTimeoutQC_queue (r : Replica) (e : Env) (t : TimeoutQC) {n p : Nat} {q' : CommitQC}
     (h : Effect.queueBlock n p q' ∈ (processTimeoutQC r e t).2.1) :
     t.highQC = some q' ∧ n = q'.message.proposal.number ∧ p = q'.message.proposal.payload := by
-  unfold processTimeoutQC at h
+  rw [processTimeoutQC_eq, ptTail_effs] at h
   cases hq : t.highQC with
-  | none =>
-    simp only [hq, Bool.not_true, Bool.false_eq_true, if_false] at h
-    simp at h
+  | none => simp [hq] at h
   | some hq' =>
     simp only [hq] at h
-    have key := fun (hh : Effect.queueBlock n p q' ∈ (processCommitQC r e hq').2.1) => processCommitQC_queue r e hq' hh
-    generalize processCommitQC r e hq' = pr at h key
-    obtain ⟨r1, effs, ok⟩ := pr
-    cases ok with
-    | false =>
-      simp only [Bool.not_false, if_true] at h
-      obtain ⟨h1, h2, h3⟩ := key h
-      subst h1; exact ⟨rfl, h2, h3⟩
-    | true =>
-      simp only [Bool.not_true, Bool.false_eq_true, if_false] at h
-      obtain ⟨h1, h2, h3⟩ := key h
-      subst h1; exact ⟨rfl, h2, h3⟩
+    obtain ⟨h1, h2, h3⟩ := processCommitQC_queue r e hq' h
+    subst h1; exact ⟨rfl, h2, h3⟩
 
 theorem processJust_queue (r : Replica) (e : Env) (j : Just) {n p : Nat} {q' : CommitQC}
     (h : Effect.queueBlock n p q' ∈ (processJust r e j).2.1) :
@@ -339,5 +350,380 @@ theorem rauth_processJust {cfg : RCfg} {sg : Sigs} {r : Replica} (h : RAuth sg r
       · exact Or.inl (h' ▸ hq')
       · have : (processJust r e (.timeout t)).1.highTimeoutQC = some t := h'
         rw [this] at hq'; cases hq'; exact Or.inr hj
+
+/-! ## authenticity of the vote caches -/
+
+theorem cqc_add_auth {sg : Sigs} {c : Committee} {q q' : CommitQC} {sb : SignedBy} {msg : Vote}
+    (h : q.add c sb msg = .ok q') (hq : AuthCQC sg q) (hs : ∀ i, sb.key = some i → sb.sigOk = true → sg.c i msg) :
+    AuthCQC sg q' := by
+  obtain ⟨i, hk, _, _, hsig, _, _, rfl⟩ := (cqc_add_ok _ _ _ _ _).mp h
+  intro p hp
+  simp only [List.mem_append, List.mem_singleton] at hp
+  rcases hp with hp | rfl
+  · exact hq p hp
+  · exact hs i hk hsig
+
+theorem cQc0_auth {sg : Sigs} {r : Replica} (h : RAuth sg r) (c : Committee) (v : Vote) :
+    AuthCQC sg (cQc0 c r.commitQCs v) := by
+  unfold cQc0
+  cases hf : ((alGet r.commitQCs v.view.number).getD []).find? (fun x => x.1 = v) with
+  | none =>
+    simp only [Option.map_none, Option.getD_none]
+    intro p hp
+    simp [CommitQC.new] at hp
+  | some x =>
+    simp only [Option.map_some, Option.getD_some]
+    obtain ⟨m, hm, hxm⟩ := mem_getD_alGet (List.mem_of_find?_eq_some hf)
+    exact h.cc _ m hm x.1 x.2 hxm
+
+theorem rauth_commitR1 {sg : Sigs} {r : Replica} (h : RAuth sg r) (key : Nat) (v : Vote) {qc : CommitQC}
+    (hqc : AuthCQC sg qc) : RAuth sg (commitR1 r key v qc) := by
+  refine ⟨h.hc, h.ht, ?_, h.tc⟩
+  intro u l hl v' qc' hvq
+  have hl' : (u, l) ∈ cCqs' r.commitViews r.commitQCs key v qc := hl
+  rcases mem_alSet (List.mem_filter.mp hl').1 with hul | ⟨hul, _⟩
+  · cases hul
+    rcases mem_cByView' hvq with hx | hx
+    · cases hx; exact hqc
+    · obtain ⟨m, hm, hxm⟩ := mem_getD_alGet hx
+      exact h.cc _ m hm v' qc' hxm
+  · exact h.cc u l hul v' qc' hvq
+
+theorem rauth_commitR2 {sg : Sigs} {r : Replica} (h : RAuth sg r) (key : Nat) (v : Vote) {qc : CommitQC}
+    (hqc : AuthCQC sg qc) : RAuth sg (commitR2 r key v qc) := by
+  have h1 := rauth_commitR1 h key v hqc
+  refine ⟨h1.hc, h1.ht, ?_, h1.tc⟩
+  intro u l hl
+  have hl' : (u, l) ∈ alErase (commitR1 r key v qc).commitQCs v.view.number := hl
+  exact h1.cc u l (mem_alErase hl')
+
+theorem mem_mapSet_fst {c : Committee} {m : List (TVote × List Bool)} {msg : TVote} {i : Nat}
+    {g : TVote × List Bool} (hg : g ∈ mapSet c m msg i) : g.1 = msg ∨ ∃ g0 ∈ m, g0.1 = g.1 := by
+  unfold mapSet at hg
+  split at hg
+  · obtain ⟨g0, hg0, hgg⟩ := List.mem_map.mp hg
+    refine Or.inr ⟨g0, hg0, ?_⟩
+    split at hgg <;> (subst hgg; rfl)
+  · rcases List.mem_append.mp hg with hg | hg
+    · exact Or.inr ⟨g, hg, rfl⟩
+    · simp only [List.mem_singleton] at hg
+      subst hg
+      exact Or.inl rfl
+
+theorem tqc_add_auth {sg : Sigs} {c : Committee} {q q' : TimeoutQC} {sb : SignedBy} {msg : TVote}
+    (h : q.add c sb msg = .ok q') (hq : AuthTQC sg q) (hs : ∀ i, sb.key = some i → sb.sigOk = true → sg.t i msg)
+    (hn : ∀ cq, msg.highQC = some cq → AuthCQC sg cq) : AuthTQC sg q' := by
+  obtain ⟨i, hk, _, _, hsig, _, _, rfl⟩ := (tqc_add_ok _ _ _ _ _).mp h
+  constructor
+  · intro p hp
+    simp only [List.mem_append, List.mem_singleton] at hp
+    rcases hp with hp | rfl
+    · exact hq.1 p hp
+    · exact hs i hk hsig
+  · intro g hg cq hcq
+    have hg' : g ∈ mapSet c q.map msg i := hg
+    rcases mem_mapSet_fst hg' with h1 | ⟨g0, hg0, h1⟩
+    · rw [h1] at hcq; exact hn cq hcq
+    · rw [← h1] at hcq; exact hq.2 g0 hg0 cq hcq
+
+theorem tQc0_auth {sg : Sigs} {r : Replica} (h : RAuth sg r) (t : TVote) : AuthTQC sg (tQc0 r.timeoutQCs t) := by
+  unfold tQc0
+  cases hf : alGet r.timeoutQCs t.view.number with
+  | none =>
+    simp only [Option.getD_none]
+    exact ⟨by intro p hp; simp [TimeoutQC.new] at hp, by intro g hg; simp [TimeoutQC.new] at hg⟩
+  | some q =>
+    simp only [Option.getD_some]
+    exact h.tc _ q (alGet_mem hf)
+
+theorem rauth_timeoutR1 {sg : Sigs} {r : Replica} (h : RAuth sg r) (key : Nat) (t : TVote) {qc : TimeoutQC}
+    (hqc : AuthTQC sg qc) : RAuth sg (timeoutR1 r key t qc) := by
+  refine ⟨h.hc, h.ht, h.cc, ?_⟩
+  intro u qc' hq
+  have hq' : (u, qc') ∈ tTqs' r.timeoutViews r.timeoutQCs key t qc := hq
+  rcases mem_alSet (List.mem_filter.mp hq').1 with huq | ⟨huq, _⟩
+  · cases huq; exact hqc
+  · exact h.tc u qc' huq
+
+theorem rauth_timeoutR2 {sg : Sigs} {r : Replica} (h : RAuth sg r) (key : Nat) (t : TVote) {qc : TimeoutQC}
+    (hqc : AuthTQC sg qc) : RAuth sg (timeoutR2 r key t qc) := by
+  have h1 := rauth_timeoutR1 h key t hqc
+  refine ⟨h1.hc, h1.ht, h1.cc, ?_⟩
+  intro u qc' hq
+  have hq' : (u, qc') ∈ alErase (timeoutR1 r key t qc).timeoutQCs t.view.number := hq
+  exact h1.tc u qc' (mem_alErase hq')
+
+/-! ## the summary of a step -/
+
+/-- the three kinds of durable write, relative to the live state `r` before the step -/
+inductive Kind (cfg : RCfg) (r : Replica) (inp : Input) (r' : Replica) : Prop where
+  /-- `start_timeout`: phase `timeout`, nothing else changes -/
+  | tout (h : r' = stState r)
+  /-- `start_new_view`: a higher view, phase `prepare`, the high vote is kept -/
+  | adv (hv : r.view < r'.view) (hp : r'.phase = .prepare) (hh : r'.highVote = r.highVote)
+  /-- `on_proposal`: the vote `propVote cfg j h` for the block implied by the verifying justification `j` -/
+  | vote (p : Option Payload) (j : Just) (key : Nat) (sigOk : Bool) (h : Nat)
+      (hinp : inp = .msg ⟨.proposal p j, key, sigOk⟩) (hver : j.verify cfg.c = true)
+      (hcan : r.view < j.viewNumber ∨ (r.view = j.viewNumber ∧ r.phase = .prepare))
+      (hconf : ∀ hh, (j.impliedBlock cfg.c).2 = some hh → h = hh)
+      (hview : r'.view = j.viewNumber) (hphase : r'.phase = .commit)
+      (hvote : r'.highVote = some (propVote cfg j h))
+      (hhc : r'.highCommitQC = hcAfter r.highCommitQC j)
+
+/-- a block handed to the store comes with a verifying, authentic certificate for exactly that block -/
+def QueueOk (cfg : RCfg) (sg : Sigs) (effs : List Effect) : Prop :=
+  ∀ n p q, Effect.queueBlock n p q ∈ effs →
+    q.verify cfg.c = true ∧ AuthCQC sg q ∧ n = q.message.proposal.number ∧ p = q.message.proposal.payload
+
+structure StepSum (cfg : RCfg) (sg : Sigs) (r : Replica) (inp : Input) (res : StepRes) : Prop where
+  auth : RAuth sg res.r
+  qle : QLe r.highCommitQC res.r.highCommitQC
+  queue : QueueOk cfg sg res.effs
+  kind : ∀ d, Effect.persist d ∈ res.effs → Kind cfg r inp res.r
+
+theorem queueOk_nil (cfg : RCfg) (sg : Sigs) : QueueOk cfg sg [] := by
+  intro n p q h; simp at h
+
+theorem sum_rej {cfg : RCfg} {sg : Sigs} {r : Replica} {inp : Input} (ha : RAuth sg r) (w : Reject) :
+    StepSum cfg sg r inp (rej r w) :=
+  ⟨ha, QLe.rfl' _, queueOk_nil cfg sg, by intro d hd; simp [rej] at hd⟩
+
+theorem sum_quiet {cfg : RCfg} {sg : Sigs} {r : Replica} {inp : Input} {res : StepRes} (ha : RAuth sg res.r)
+    (hq : QLe r.highCommitQC res.r.highCommitQC) (hqu : QueueOk cfg sg res.effs) (ho : OnlyQueue res.effs) :
+    StepSum cfg sg r inp res :=
+  ⟨ha, hq, hqu, fun d hd => absurd hd (ho.no_persist d)⟩
+
+theorem onlyQueue_nil : OnlyQueue [] := by intro x hx; simp at hx
+
+theorem rauth_snv {sg : Sigs} {r3 : Replica} (h3 : RAuth sg r3) (view : Nat) : RAuth sg (snvState r3 view) := by
+  obtain ⟨_, _, _, f4, f5, _, f7, _, f9⟩ := snvState_fields r3 view
+  exact rauth_of_certs h3 f7 f9 (fun q hq => Or.inl (f4 ▸ hq)) (fun q hq => Or.inl (f5 ▸ hq))
+
+theorem sum_snv {cfg : RCfg} {sg : Sigs} {r : Replica} {inp : Input} {r3 : Replica} {view : Nat} {qs : List Effect}
+    {j' : Just} {out : Outcome} (h3 : RAuth sg r3) (hq : QLe r.highCommitQC r3.highCommitQC)
+    (hqu : QueueOk cfg sg qs) (hv : r.view < view) (hh : r3.highVote = r.highVote) :
+    StepSum cfg sg r inp
+      { r := snvState r3 view,
+        effs := qs ++ [.notify j', .persist (snvState r3 view).durable, .send (.newView j')], out := out } := by
+  obtain ⟨f1, f2, f3, f4, _⟩ := snvState_fields r3 view
+  refine ⟨rauth_snv h3 view, ?_, ?_, fun d _ => ?_⟩
+  · show QLe r.highCommitQC (snvState r3 view).highCommitQC
+    rw [f4]; exact hq
+  · intro n p q h
+    have h' : Effect.queueBlock n p q ∈ qs ++ [.notify j', .persist (snvState r3 view).durable, .send (.newView j')] := h
+    rcases List.mem_append.mp h' with h1 | h1
+    · exact hqu n p q h1
+    · simp at h1
+  · exact Kind.adv (by show r.view < (snvState r3 view).view; rw [f1]; exact hv) f2 (f3.trans hh)
+
+theorem queueOk_processJust {cfg : RCfg} {sg : Sigs} (r : Replica) (e : Env) {j : Just} (hv : j.verify cfg.c = true)
+    (hj : AuthJust sg j) : QueueOk cfg sg (processJust r e j).2.1 := by
+  intro n p q h
+  obtain ⟨h1, h2, h3⟩ := processJust_queue r e j h
+  exact ⟨justQC_verify hv h1, justQC_auth hj h1, h2, h3⟩
+
+theorem queueOk_processCommitQC {cfg : RCfg} {sg : Sigs} (r : Replica) (e : Env) {qc : CommitQC}
+    (hv : qc.verify cfg.c = true) (hq : AuthCQC sg qc) : QueueOk cfg sg (processCommitQC r e qc).2.1 := by
+  intro n p q h
+  obtain ⟨h1, h2, h3⟩ := processCommitQC_queue r e qc h
+  subst h1
+  exact ⟨hv, hq, h2, h3⟩
+
+theorem queueOk_processTimeoutQC {cfg : RCfg} {sg : Sigs} (r : Replica) (e : Env) {t : TimeoutQC}
+    (hv : t.verify cfg.c = true) (ht : AuthTQC sg t) : QueueOk cfg sg (processTimeoutQC r e t).2.1 :=
+  queueOk_processJust (cfg := cfg) r e (j := .timeout t) hv ht
+
+/-! ## the handlers -/
+
+theorem sum_tick {cfg : RCfg} {sg : Sigs} {r : Replica} (hw : Wf cfg r) (ha : RAuth sg r) :
+    StepSum cfg sg r .tick (startTimeout cfg r) := by
+  have hst : RAuth sg (stState r) := ⟨ha.hc, ha.ht, ha.cc, ha.tc⟩
+  by_cases hv : r.view = 0
+  · rw [startTimeout_eq0 cfg r hv]
+    exact ⟨hst, QLe.rfl' _, by intro n p q h; simp at h, fun d _ => Kind.tout rfl⟩
+  · have hheld : HeldAtLeast r r.view := by
+      rcases hw.held with h0 | h0
+      · exact absurd h0 hv
+      · exact h0
+    obtain ⟨j, hj⟩ := getJustification_ok hheld
+    rw [startTimeout_eq1 cfg r j hv hj]
+    exact ⟨hst, QLe.rfl' _, by intro n p q h; simp at h, fun d _ => Kind.tout rfl⟩
+
+theorem sum_newView {cfg : RCfg} {sg : Sigs} {r : Replica} (e : Env) (key : Nat) (sigOk : Bool) {j : Just}
+    (ha : RAuth sg r) (hj : AuthJust sg j) :
+    StepSum cfg sg r (.msg ⟨.newView j, key, sigOk⟩) (onNewView cfg r e key sigOk j) := by
+  rcases onNewView_cases cfg r e key sigOk j with ⟨_, w, hw'⟩ | ⟨hc, ht⟩
+  · rw [hw']; exact sum_rej ha w
+  · rw [ht]
+    obtain ⟨_, _, _, hver⟩ := hc
+    have hpj := rauth_processJust ha e hver hj
+    obtain ⟨hup, hoq, _⟩ := ReplicaStep.processJust_spec cfg r e j hver
+    have hq : QLe r.highCommitQC (processJust r e j).1.highCommitQC := by
+      rw [processJust_hc]; exact qle_hcAfter _ _
+    have hqu := queueOk_processJust (cfg := cfg) r e hver hj
+    obtain ⟨hb, hok⟩ := newViewTail_reaction (cfg := cfg) (r := r) e hver
+    cases hokv : (processJust r e j).2.2 with
+    | false =>
+      rw [hb hokv]
+      exact sum_quiet hpj hq hqu hoq
+    | true =>
+      by_cases hgt : j.viewNumber > r.view
+      · obtain ⟨j', _, heq⟩ := (hok hokv).1 hgt
+        rw [heq]
+        exact sum_snv hpj hq hqu hgt hup.highVote
+      · rw [(hok hokv).2 hgt]
+        exact sum_quiet hpj hq hqu hoq
+
+theorem sum_commit {cfg : RCfg} {sg : Sigs} {r : Replica} (e : Env) (key : Nat) (sigOk : Bool) {v : Vote}
+    (hw : Wf cfg r) (ha : RAuth sg r) (hnw : v.view.number + 1 < 2 ^ 64) (hs : sigOk = true → sg.c key v) :
+    StepSum cfg sg r (.msg ⟨.commit v, key, sigOk⟩) (onCommit cfg r e key sigOk v) := by
+  rcases onCommit_cases cfg r e key sigOk v with ⟨_, w, hw'⟩ | ⟨hc, ht⟩
+  · rw [hw']; exact sum_rej ha w
+  · rw [ht]
+    obtain ⟨qc, hadd, hasm, hlow, hhigh⟩ := commitTail_reaction e hw hc
+    have hqc : AuthCQC sg qc := by
+      refine cqc_add_auth hadd (cQc0_auth ha cfg.c v) ?_
+      intro i hi hsig
+      simp only [Option.some.injEq] at hi
+      subst hi
+      exact hs hsig
+    by_cases hlt : weightOf cfg.c.weights qc.signers < cfg.c.quorum
+    · rw [hlow hlt]
+      exact sum_quiet (rauth_commitR1 ha key v hqc) (QLe.rfl' _) (queueOk_nil cfg sg) onlyQueue_nil
+    · obtain ⟨hver, hbl, hokc⟩ := hhigh (by omega)
+      have hr2 := rauth_commitR2 ha key v hqc
+      have hr3 := rauth_processCommitQC hr2 e hver hqc
+      obtain ⟨hup, hoq, _⟩ := ReplicaStep.processCommitQC_spec cfg (commitR2 r key v qc) e qc hver
+      have hq : QLe r.highCommitQC (processCommitQC (commitR2 r key v qc) e qc).1.highCommitQC := by
+        rw [processCommitQC_hc]
+        exact qle_newer _ _
+      have hqu := queueOk_processCommitQC (cfg := cfg) (commitR2 r key v qc) e hver hqc
+      cases hok : (processCommitQC (commitR2 r key v qc) e qc).2.2 with
+      | false =>
+        rw [hbl hok]
+        exact sum_quiet hr3 hq hqu hoq
+      | true =>
+        obtain ⟨j, _, heq⟩ := hokc hok
+        rw [heq]
+        refine sum_snv hr3 hq hqu ?_ hup.highVote
+        rw [nextU64_eq _ hnw]
+        have := hc.2.1
+        omega
+
+theorem sum_timeout {cfg : RCfg} {sg : Sigs} {r : Replica} (e : Env) (key : Nat) (sigOk : Bool) {t : TVote}
+    (hw : Wf cfg r) (ha : RAuth sg r) (hnw : t.view.number + 1 < 2 ^ 64) (hs : sigOk = true → sg.t key t)
+    (hn : ∀ cq, t.highQC = some cq → AuthCQC sg cq) :
+    StepSum cfg sg r (.msg ⟨.timeout t, key, sigOk⟩) (onTimeout cfg r e key sigOk t) := by
+  rcases onTimeout_cases cfg r e key sigOk t with ⟨_, w, hw'⟩ | ⟨hc, ht⟩
+  · rw [hw']; exact sum_rej ha w
+  · rw [ht]
+    obtain ⟨qc, hadd, hasm, _, hlow, hhigh⟩ := timeoutTail_reaction e hw hc
+    have hqc : AuthTQC sg qc := by
+      refine tqc_add_auth hadd (tQc0_auth ha t) ?_ hn
+      intro i hi hsig
+      simp only [Option.some.injEq] at hi
+      subst hi
+      exact hs hsig
+    by_cases hlt : tqcGroupWeight cfg.c qc < cfg.c.quorum
+    · rw [hlow hlt]
+      exact sum_quiet (rauth_timeoutR1 ha key t hqc) (QLe.rfl' _) (queueOk_nil cfg sg) onlyQueue_nil
+    · obtain ⟨hver, hbl, hokc⟩ := hhigh (by omega)
+      have hr2 := rauth_timeoutR2 ha key t hqc
+      have hr3 : RAuth sg (processTimeoutQC (timeoutR2 r key t qc) e qc).1 :=
+        rauth_processJust (cfg := cfg) hr2 e (j := .timeout qc) hver hqc
+      obtain ⟨hup, hoq, _⟩ := ReplicaStep.processTimeoutQC_spec cfg (timeoutR2 r key t qc) e qc hver
+      have hq : QLe r.highCommitQC (processTimeoutQC (timeoutR2 r key t qc) e qc).1.highCommitQC := by
+        rw [processTimeoutQC_hc]
+        exact qle_hcAfter _ _
+      have hqu := queueOk_processTimeoutQC (cfg := cfg) (timeoutR2 r key t qc) e hver hqc
+      cases hok : (processTimeoutQC (timeoutR2 r key t qc) e qc).2.2 with
+      | false =>
+        rw [hbl hok]
+        exact sum_quiet hr3 hq hqu hoq
+      | true =>
+        obtain ⟨j, _, heq⟩ := hokc hok
+        rw [heq]
+        refine sum_snv hr3 hq hqu ?_ hup.highVote
+        rw [nextU64_eq _ hnw]
+        have := hc.2.1
+        omega
+
+theorem sum_proposal {cfg : RCfg} {sg : Sigs} {r : Replica} (e : Env) (key : Nat) (sigOk : Bool)
+    (p : Option Payload) {j : Just} (ha : RAuth sg r) (hj : AuthJust sg j) :
+    StepSum cfg sg r (.msg ⟨.proposal p j, key, sigOk⟩) (onProposal cfg r e key sigOk p j) := by
+  rcases onProposal_cases cfg r e key sigOk p j with ⟨_, w, hw'⟩ | ⟨hc, ⟨w, _, hw'⟩ | ⟨h, r0, hd, ht⟩⟩
+  · rw [hw']; exact sum_rej ha w
+  · rw [hw']; exact sum_rej ha w
+  · rw [ht]
+    obtain ⟨hcan, _, _, hver, _⟩ := hc
+    have hr0 := propDecide_rest hd
+    have ha1 : RAuth sg (propR1 cfg r0 j h) := by
+      refine ⟨?_, ?_, ?_, ?_⟩
+      · show ∀ q, r0.highCommitQC = some q → _
+        rw [hr0]; exact ha.hc
+      · show ∀ q, r0.highTimeoutQC = some q → _
+        rw [hr0]; exact ha.ht
+      · show ∀ u l, (u, l) ∈ r0.commitQCs → _
+        rw [hr0]; exact ha.cc
+      · show ∀ u qc, (u, qc) ∈ r0.timeoutQCs → _
+        rw [hr0]; exact ha.tc
+    have hpj := rauth_processJust ha1 e hver hj
+    obtain ⟨hup, hoq, _⟩ := ReplicaStep.processJust_spec cfg (propR1 cfg r0 j h) e j hver
+    have e1 : (propR1 cfg r0 j h).highCommitQC = r.highCommitQC := by rw [hr0]; rfl
+    have hhc : (processJust (propR1 cfg r0 j h) e j).1.highCommitQC = hcAfter r.highCommitQC j := by
+      rw [processJust_hc, e1]
+    have hq : QLe r.highCommitQC (processJust (propR1 cfg r0 j h) e j).1.highCommitQC := by
+      rw [hhc]; exact qle_hcAfter _ _
+    have hqu := queueOk_processJust (cfg := cfg) (propR1 cfg r0 j h) e hver hj
+    unfold propTail
+    cases hok : (processJust (propR1 cfg r0 j h) e j).2.2 with
+    | false =>
+      simp only [Bool.not_false, if_true]
+      exact sum_quiet hpj hq hqu hoq
+    | true =>
+      simp only [Bool.not_true, Bool.false_eq_true, if_false]
+      refine ⟨hpj, hq, ?_, fun d _ => ?_⟩
+      · intro n p' q hmem
+        have hmem' : Effect.queueBlock n p' q ∈ (processJust (propR1 cfg r0 j h) e j).2.1 ++
+            [.persist (processJust (propR1 cfg r0 j h) e j).1.durable, .send (.commit (propVote cfg j h))] := hmem
+        rcases List.mem_append.mp hmem' with h1 | h1
+        · exact hqu n p' q h1
+        · simp at h1
+      · refine Kind.vote p j key sigOk h rfl hver ?_ ?_ ?_ ?_ ?_ hhc
+        · by_cases hp : r.phase = .prepare
+          · by_cases hlt : r.view < j.viewNumber
+            · exact Or.inl hlt
+            · refine Or.inr ⟨?_, hp⟩
+              have : ¬ j.viewNumber < r.view := fun h => hcan (Or.inl h)
+              omega
+          · refine Or.inl ?_
+            have h1 : ¬ j.viewNumber < r.view := fun h => hcan (Or.inl h)
+            have h2 : ¬ j.viewNumber = r.view := fun h => hcan (Or.inr ⟨h, hp⟩)
+            omega
+        · intro hh hib
+          rcases propDecide_ok hd with ⟨h1, _, _⟩ | ⟨h1, _⟩
+          · rw [h1] at hib; cases hib; rfl
+          · rw [h1] at hib; cases hib
+        · show (processJust (propR1 cfg r0 j h) e j).1.view = j.viewNumber
+          rw [hup.view]; rfl
+        · show (processJust (propR1 cfg r0 j h) e j).1.phase = .commit
+          rw [hup.phase]; rfl
+        · show (processJust (propR1 cfg r0 j h) e j).1.highVote = some (propVote cfg j h)
+          rw [hup.highVote]; rfl
+
+/-- **One step of a replica, summarised.** -/
+theorem step_sum {cfg : RCfg} {sg : Sigs} {r : Replica} (e : Env) {inp : Input} (hw : Wf cfg r) (ha : RAuth sg r)
+    (hin : ∀ b, inp ≠ .restart b) (hok : InputOk inp) (hia : InpAuth sg inp) :
+    StepSum cfg sg r inp (step cfg r e inp) := by
+  cases inp with
+  | tick => exact sum_tick hw ha
+  | restart b => exact absurd rfl (hin b)
+  | msg s =>
+    obtain ⟨m, key, sigOk⟩ := s
+    cases m with
+    | proposal p j => exact sum_proposal e key sigOk p ha hia
+    | commit v => exact sum_commit e key sigOk hw ha hok hia
+    | timeout t => exact sum_timeout e key sigOk hw ha hok hia.1 hia.2
+    | newView j => exact sum_newView e key sigOk ha hia
 
 end EraVerif.Proofs.RefineIP
